@@ -1403,7 +1403,7 @@ func (w *Writer) computeDynamicArrayLength(baseHandle ir.ExpressionHandle, strid
 	// The global may itself be the runtime-sized array (`var<storage> a: array<atomic<u32>>`):
 	// it starts at offset 0 of its binding.
 	if bare, isGlobal := expr.Kind.(ir.ExprGlobalVariable); isGlobal {
-		for i, h := range w.bufferSizeGlobals {
+		for _, h := range w.bufferSizeGlobals {
 			if h != uint32(bare.Variable) || int(bare.Variable) >= len(w.module.GlobalVariables) {
 				continue
 			}
@@ -1419,7 +1419,7 @@ func (w *Writer) computeDynamicArrayLength(baseHandle ir.ExpressionHandle, strid
 			if elementSize == 0 {
 				elementSize = stride
 			}
-			return boundsCheckLength{kind: boundsLengthDynamic, dynamicGlobal: uint32(i), memberOffset: 0, elementSize: elementSize, stride: stride}
+			return boundsCheckLength{kind: boundsLengthDynamic, dynamicGlobal: uint32(bare.Variable), memberOffset: 0, elementSize: elementSize, stride: stride}
 		}
 		return boundsCheckLength{kind: boundsLengthNone}
 	}
@@ -1483,7 +1483,7 @@ func (w *Writer) computeDynamicArrayLength(baseHandle ir.ExpressionHandle, strid
 
 	return boundsCheckLength{
 		kind:          boundsLengthDynamic,
-		dynamicGlobal: uint32(bufSizeIdx),
+		dynamicGlobal: uint32(gv.Variable), // _mslBufferSizes members are named after the handle
 		memberOffset:  lastMember.Offset,
 		elementSize:   elementSize,
 		stride:        stride,
